@@ -251,7 +251,17 @@ def _run_chunk(task):
             sig1 = (oh, sorted((v["site"], v["clause"], v["cls"]) for v in obs.violations))
             sig2 = (h64(obs2.outcome), sorted((v["site"], v["clause"], v["cls"]) for v in obs2.violations))
             if sig1 != sig2:
-                res["nondet"] = {"family": fam.name, "index": i, "first": repr(obs.outcome)[:300], "second": repr(obs2.outcome)[:300]}
+                # The same case, executed twice in a row in one process, gave two different results.  Either the
+                # harness is non-deterministic (exit 2) or the library carries state from one call to the next - which
+                # violates every property here (they are all statements about values).  It is reported as a candidate
+                # violation and decided by the fresh-process replay: two back-to-back executions must differ again.
+                v = {"site": fam.name, "clause": "repeated-call-differs", "cls": "",
+                     "detail": f"first {repr(obs.outcome)[:250]} second {repr(obs2.outcome)[:250]}"}
+                sig = (v["site"], v["clause"], v["cls"])
+                res["sigs"][sig] += 1
+                if res["sigs"][sig] <= 2:
+                    res["violations"].append(dict(v, family=fam.name, index=i, case=fam.describe(case)))
+                res["n_viol_cases"] += 1
     _clean_tmp()
     return res
 
